@@ -93,6 +93,12 @@ def run(c):
         lc.append({"id": len(lc), "kind": "run", "runner": runner, "args": ["rlimits"], "rlimits": {}})
         for _ in range(n_each):
             lc.append({"id": len(lc), "kind": "run", "runner": runner, "args": ["rlimits"], "rlimits": rec()})
+    # more entries than the record type can produce, handed to the launcher directly: every one of them must be in force
+    RAW = [[8, 32768, 65536], [11, 100, 200], [12, 4096, 8192], [10, 10, 20], [6, 3000, 4000], [13, 0, 0], [14, 0, 0], [5, 1 << 30, 1 << 31]]
+    for runner in ("ptrace", "ns", "container"):
+        for k in (3, 6, len(RAW)):
+            lc.append({"id": len(lc), "kind": "run", "runner": runner, "args": ["rlimits"], "rlimits": {"cpu": 5, "data": 1 << 28, "fsize": 1 << 20, "stack": 8 << 20, "nofile": 256, "nocore": True},
+                       "raw": RAW[:k]})
     # refusals: hard limit above the inherited one, no privilege in the new user namespace
     for res, f, lo, want in ((1, "fsize", 1 << 26, 1 << 27), (7, "nofile", 512, 1024), (9, "as", 1 << 32, 1 << 33)):
         lc.append({"id": len(lc), "kind": "run", "runner": "ns", "args": ["rlimits"], "rlimits": {f: want},
@@ -111,11 +117,14 @@ def run(c):
         if obs is None and not failed_at_rlimit:
             c.finding_or_violation({"kind": "launch-under-limits-failed", "runner": x["runner"], "error": o["errmsg"]}, {"case": x, "observed": o})
             continue
-        items.append("(%s, %s, %s, %s)" % (coq_rl(rr), coq_bool(priv), assoc(o["inherited"]),
-                                         "None" if obs is None else "(Some %s)" % assoc(obs)))
+        if "raw" not in x:      # the model speaks about the record type; entries given directly are judged by the oracle below
+            items.append("(%s, %s, %s, %s)" % (coq_rl(rr), coq_bool(priv), assoc(o["inherited"]),
+                                             "None" if obs is None else "(Some %s)" % assoc(obs)))
         c.count(("launch", x["runner"], tuple(sorted(rr.items())), "lower" in x), nontrivial=bool(rr), klass="launch:" + x["runner"])
         if obs is not None:
             exp = expected_limits(rr, o["inherited"])
+            for res_, cur_, max_ in x.get("raw", []):
+                exp[res_] = (cur_, max_)
             got = {int(k): tuple(v) for k, v in obs.items()}
             if got != exp:
                 diff = {k: (exp.get(k), got.get(k)) for k in set(exp) | set(got) if exp.get(k) != got.get(k)}
